@@ -7,9 +7,12 @@ correspondence : (1) Kekule.__prepare_rings == Model.Kekule.prepare_rings on an 
                  (2) EVERY output of kekule(), every form of enumerate_kekule() and every output of thiele() on the inputs
                  of the check goes through the Coq checkers kekule_rel / thiele_rel (vm_compute);
                  (3) the driver model kekule_driver re-plays kekule() given the real search result.
-search         : independent of the model, on the real code: idempotence of both conversions, fixpoints of the
-                 compositions, every enumerated form aromatises to the same canonical string (unsaturated four-membered
-                 rings excluded and counted), valence of Kekule results, renumbering invariance, RDKit agreement.
+search         : independent of the model, on the real code: atoms / charges / radicals / connectivity unchanged, idempotence
+                 of both conversions, fixpoints of the compositions, every enumerated form aromatises to the same
+                 canonical string (unsaturated four-membered rings excluded and counted), valence and hydrogen counts of
+                 Kekule results, renumbering invariance, RDKit agreement.  Hydrogen / valence / form oracles are claimed
+                 inside a domain decided without the model (see `domain`); outside it failures are counted only.
+                 When the model and the code disagree, `directed_search` looks for a concrete failing input.
 """
 import concurrent.futures as cf
 import itertools
@@ -221,7 +224,8 @@ def generated(rng, n_random):
     five_x = ['[nH]', 'n(C)', 'o', 's', '[se]', '[te]', '[pH]', 'p(C)', '[bH]', 'b(C)', '[cH-]', '[n-]', 'n', '[nH+]', '[o+]', '[s+](C)', '[c-](C)', '[n+](C)(C)',
               '[b-](C)(C)', 's(=O)', 'c(=O)', '[asH]']
     for x in five_x:
-        for combo in itertools.product('cn', repeat=4):
+        combos = list(itertools.product('cn', repeat=4))
+        for combo in (combos if n_random > 200 else [combos[0]] + rng.sample(combos[1:], 6)):
             out.append(('five', ring_smiles([x] + list(combo))))
     # fused templates: plain 'c' tokens may become 'n'; X = pyrrole-type atom
     templates = ['c1ccc2ccccc2c1', 'c1ccc2Xccc2c1', 'c1ccc2Xcnc2c1', 'c1ccc2cXcc2c1', 'c1ccn2cccc2c1', 'c1ccn2ccnc2c1', 'c1ncc2Xcnc2n1', 'c1ccc2cccc2cc1',
@@ -280,13 +284,13 @@ def load_inputs(ck):
     rng = random.Random(f'{ck.seed}:c05:inputs')
     quick = ck.tier == 'quick'
     items = [('curated', s) for s in dict.fromkeys(CURATED)]
-    items += generated(rng, 90 if quick else 600)
+    items += generated(rng, 72 if quick else 600)
     try:
         with open(os.path.join(common.REPO, 'test/heterocycles_charges.smi')) as f:
             items += [('heterocycles_charges.smi', line.split()[0]) for line in f if line.strip()]
     except OSError:
         ck.count('unreadable:heterocycles_charges.smi')
-    items += [('lipophilicity', s) for s in corpus.sample(corpus.lipo(), 110 if quick else 1500, ck.seed, 'c05')]
+    items += [('lipophilicity', s) for s in corpus.sample(corpus.lipo(), 90 if quick else 1500, ck.seed, 'c05')]
     mols = []
     for kind, s in items:
         try:
@@ -400,6 +404,55 @@ def quinone_allowed(num, charge):
 
 
 # ---------------------------------------------------------------------------------------------------
+# the domain of the property-level oracles: an independent reading of the input exists
+
+_DOMAIN = {}
+
+
+def domain(label):
+    """(in_domain, reason, RDKit hydrogens per atom in input order).  An aromatic SMILES is inside the domain of the
+    search oracles when RDKit reads and kekulizes it AND chython, given RDKit's Kekule spelling as a plain non-aromatic
+    SMILES, finds no valence error and the same hydrogen count on every atom: an independent witness that a valence-clean
+    Kekule form with the written hydrogens exists.  Outside the domain (strings no toolkit agrees on, environments
+    chython's valence tables do not know: C04's business) only crashes, the correspondence and the checker core count."""
+    if label in _DOMAIN:
+        return _DOMAIN[label]
+    from rdkit import Chem
+    from chython import smiles
+    res = (False, 'not-comparable', None)
+    try:
+        rd = Chem.MolFromSmiles(label)
+        if rd is None:
+            res = (False, 'rdkit-rejects', None)
+        else:
+            rk = Chem.Mol(rd)
+            Chem.Kekulize(rk, clearAromaticFlags=True)
+            ks = Chem.MolToSmiles(rk, canonical=False, kekuleSmiles=True)
+            order = list(rk.GetPropsAsDict(True, True).get('_smilesAtomOutputOrder', []))
+            hs_rd = [a.GetTotalNumHs() for a in rk.GetAtoms()]
+            dbl = sum(1 for bd in rk.GetBonds() if bd.GetBondType() == Chem.BondType.DOUBLE)
+            m2 = smiles(ks)
+            if m2 is None or len(m2._atoms) != len(hs_rd) or len(order) != len(hs_rd):
+                res = (False, 'not-comparable', None)
+            elif m2.check_valence():
+                res = (False, 'chython-valence-rules-reject-rdkit-kekule-form', None)
+            elif [a.implicit_hydrogens for _, a in m2.atoms()] != [hs_rd[i] for i in order]:
+                res = (False, 'hydrogen-counts-differ-on-rdkit-kekule-form', None)
+            elif any(a.is_radical for _, a in m2.atoms()) or any(a.GetNumRadicalElectrons() for a in rk.GetAtoms()):
+                res = (False, 'radical', None)
+            else:
+                res = (True, 'ok', (hs_rd, dbl))
+    except Exception as e:
+        res = (False, f'not-comparable:{type(e).__name__}', None)
+    _DOMAIN[label] = res
+    return res
+
+
+def atom_state(a):
+    return f'{a.atomic_symbol}{a.charge:+d}:radical={a.is_radical}:neighbors={a.neighbors}'
+
+
+# ---------------------------------------------------------------------------------------------------
 # correspondence (1b, 2, 3) and search on whole molecules
 
 class Pipe:
@@ -412,9 +465,16 @@ class Pipe:
         self.excluded_4ring_inconsistent = 0
         self.rdkit_compared = 0
 
-    def bad(self, key, what, label, observed, expected, oracle, code):
-        self.ck.counterexample(key, what, {'input': label}, observed, expected, oracle,
-                               replay_py='from chython import smiles\n' + code if not label.startswith('arenes.sdf') else None)
+    def bad(self, dom, key, what, label, observed, expected, oracle, code, extra=None):
+        """a property-level failure on the real code: reported inside the domain, counted outside"""
+        if not dom:
+            self.ck.count('outside-domain: ' + key.split(':')[0])
+            return
+        inp = {'input': label}
+        if extra:
+            inp.update(extra)
+        self.ck.counterexample(key, what, inp, observed, expected, oracle,
+                               replay_py=('from chython import smiles\n' + code) if code else None)
 
     def run(self, kind, label, m0, renumbered=False, full=True):
         from chython.exceptions import InvalidAromaticRing
@@ -422,21 +482,36 @@ class Pipe:
         self.i += 1
         i = self.i
         tag = f'{kind}{"/renumbered" if renumbered else ""}'
+        is_sdf = kind == 'arenes.sdf'
         smi = label
+        load = f'm=smiles({smi!r})'
         defs, cases = [], []
         aromatic_input = has_arom(m0)
+        dom, why, rdinfo = domain(str(m0) if is_sdf else label)
+        if is_sdf:
+            rdinfo = None        # atom order of the SDF record and of the string differ
+        if not renumbered:
+            ck.count(f'domain:{why}')
         ck.count(f'input:{kind}:{"aromatic" if aromatic_input else "kekule"}' + ('/renumbered' if renumbered else ''))
+
+        def code_of(body):
+            return None if is_sdf else f'{load}; {body}'
 
         # ---- stage 0: rule based repair of mis-drawn rings (part of kekule(); outside the relation, counted)
         pre = m0.copy()
-        fixed = pre._Kekule__fix_rings()
+        try:
+            fixed = pre._Kekule__fix_rings()
+        except Exception as e:
+            self.bad(True, f'kekule-crash:{type(e).__name__}:{smi}', f'__fix_rings raises {type(e).__name__}', label, repr(e), 'no exception', 'exception class',
+                     code_of('m.kekule()'))
+            return None
         if fixed:
             ck.count('rule-repaired-input (relation applied after __fix_rings)')
             s0, s1 = snap(m0), snap(pre)
             if [x[:3] for x in s0[0]] != [x[:3] for x in s1[0]] or sum(x[3] for x in s0[0]) != sum(x[3] for x in s1[0]) or \
                     [(n, [k for k, _ in nb]) for n, nb in s0[1]] != [(n, [k for k, _ in nb]) for n, nb in s1[1]]:
-                self.bad(f'fix-rings-changes-molecule:{smi}', '__fix_rings changed atoms, total charge or connectivity', label, s1, s0,
-                         'atoms / total charge / neighbour sets before and after', f'm=smiles({smi!r}); m.kekule(); print(m)')
+                self.bad(True, f'fix-rings-changes-molecule:{smi}', '__fix_rings changed atoms, total charge or connectivity', label, s1, s0,
+                         'atoms / total charge / neighbour sets before and after', code_of('m.kekule(); print(m)'))
         before = pre
         defs.append(f'Definition g{i} := {mol_t(before)}.\nDefinition r{i} : list (list Z) := {sssr_t(before)}.')
 
@@ -446,11 +521,11 @@ class Pipe:
         try:
             rings, pyr, db = p._Kekule__prepare_rings()
             rt = lst([tup(zraw(n), lst(ms, zraw)) for n, ms in rings.items()])
-            cases.append((f'prep_eqb (prepare_rings g{i} r{i}) {rt} {lst(sorted(pyr), zraw)} {lst(sorted(db), zraw)}', ('prepare_rings', label), 'prep'))
+            cases.append((f'prep_eqb (prepare_rings g{i} r{i}) {rt} {lst(sorted(pyr), zraw)} {lst(sorted(db), zraw)}', ('prepare_rings', label, list(m0._atoms)), 'prep'))
             misdrawn = any(int(before._bonds[n][k]) != 4 for n, ms in rings.items() for k in ms)
             prep_raises = False
         except InvalidAromaticRing:
-            cases.append((f'prep_raises (prepare_rings g{i} r{i})', ('prepare_rings raises', label), 'prep'))
+            cases.append((f'prep_raises (prepare_rings g{i} r{i})', ('prepare_rings raises', label, list(m0._atoms)), 'prep'))
             prep_raises = True
         ck.case(('prep', tag, label), nontrivial=aromatic_input and not prep_raises)
         if misdrawn:
@@ -461,26 +536,55 @@ class Pipe:
         try:
             ret = k.kekule()
         except InvalidAromaticRing:
-            ck.count(f'kekule:InvalidAromaticRing:{kind}')
+            ck.count(f'kekule:InvalidAromaticRing:{kind}' + (':inside-domain' if dom else ''))
             if prep_raises:
-                cases.append((f'driver_raises g{i} r{i}', ('driver raises', label), 'prep'))
+                cases.append((f'driver_raises g{i} r{i}', ('driver raises', label, list(m0._atoms)), 'prep'))
             cs.add(defs, cases)
             return None
         except Exception as e:
-            self.bad(f'kekule-crash:{type(e).__name__}:{smi}', f'kekule() raises {type(e).__name__}', label, repr(e), 'a Kekule form or InvalidAromaticRing',
-                     'exception class', f'm=smiles({smi!r}); m.kekule()')
+            self.bad(True, f'kekule-crash:{type(e).__name__}:{smi}', f'kekule() raises {type(e).__name__}', label, repr(e), 'a Kekule form or InvalidAromaticRing',
+                     'exception class', code_of('m.kekule()'))
             cs.add(defs, cases)
             return None
         if prep_raises:
-            self.bad(f'kekule-after-prepare-raise:{smi}', '__prepare_rings raises but kekule() returned', label, ret, 'InvalidAromaticRing', 'control flow',
-                     f'm=smiles({smi!r}); print(m.kekule())')
+            self.bad(True, f'kekule-after-prepare-raise:{smi}', '__prepare_rings raises but kekule() returned', label, ret, 'InvalidAromaticRing', 'control flow',
+                     code_of('print(m.kekule())'))
         ck.count(f'kekule:returned-{ret}')
         defs.append(f'Definition k{i} := {mol_t(k)}.')
         src = f'(repair g{i} r{i})' if misdrawn else f'g{i}'
-        code = f'm=smiles({smi!r}); h0=[a.implicit_hydrogens for _,a in m.atoms()]; m.kekule(); print(m, h0, [a.implicit_hydrogens for _,a in m.atoms()], m.check_valence())'
-        rel = self.h_route('kekule', before, k, label, code)
-        cases.append((f'{rel} {src} k{i}', ('kekule_rel', 'kekule()', label), ('kekule', label, code)))
+        code = code_of('h0=[a.implicit_hydrogens for _,a in m.atoms()]; m.kekule(); print(m, h0, [a.implicit_hydrogens for _,a in m.atoms()], m.check_valence())')
+
+        # ---- search: the Kekule result is the same molecule, clean and stable (oracles independent of the model)
+        s0, s1 = snap(before), snap(k)
+        if [x[:5] for x in s0[0]] != [x[:5] for x in s1[0]] or [(n, [q for q, _ in nb]) for n, nb in s0[1]] != [(n, [q for q, _ in nb]) for n, nb in s1[1]]:
+            self.bad(True, f'kekule-changes-molecule:{smi}', 'kekule() changed atoms, isotopes, charges, radicals or connectivity', label, s1, s0, 'snapshot comparison', code)
+        for (n, nb0), (_, nb1) in zip(s0[1], s1[1]):
+            for (q, o0), (_, o1) in zip(nb0, nb1):
+                if o0 != o1 and not (o0 == 4 and o1 in (1, 2)) and not (misdrawn and o1 in (1, 2)):
+                    self.bad(True, f'kekule-rewrites-non-aromatic-bond:{smi}', f'kekule() changed the order of bond {n}-{q} from {o0} to {o1}', label, o1, o0,
+                             'bond orders before / after', code)
+        orders = {o for _, nb in s1[1] for _, o in nb}
+        if not orders <= {1, 2, 3, 8}:
+            self.bad(True, f'kekule-orders:{smi}', 'Kekule result has a bond order outside 1,2,3 (8 = coordinate)', label, sorted(orders), '1,2,3', 'bond orders', code)
+        ve_before = set(m0.check_valence()) if not aromatic_input else {n for n, a in m0._atoms.items()
+                                                                       if a.implicit_hydrogens is None and not any(int(bd) == 4 for bd in m0._bonds[n].values())}
+        ve = set(k.check_valence()) - ve_before
+        for n in sorted(ve):
+            a = before._atoms[n]
+            self.bad(dom, f'kekule-valence-error:{atom_state(a)}', f'kekule() accepts a ring {a.atomic_symbol} (charge {a.charge:+d}, radical {a.is_radical}, '
+                     f'{a.neighbors} neighbours) and leaves it with a valence error although a valence-clean Kekule form exists (RDKit\'s)', label,
+                     'check_valence() lists the atom', 'no valence error', 'check_valence() of the Kekule result', code, {'atom': n})
+        hchg = self.h_changes('kekule', before, k, label, code, dom)
+        cases.append((f'kekule_rel_x {b(bool(hchg))} {b(bool(ve))} {src} k{i}', ('kekule_rel', 'kekule()', label, list(m0._atoms)), ('kekule', label, code)))
         ck.case(('kekule', tag, label), nontrivial=aromatic_input)
+        k2 = k.copy()
+        r2 = k2.kekule()
+        if r2 or snap(k2) != snap(k):
+            self.bad(True, f'kekule-twice:{smi}', 'second kekule() changes the molecule / reports a conversion', label, [r2, str(k2)], [False, str(k)],
+                     'snapshot equality', code_of('m.kekule(); print(m); print(m.kekule(), m)'))
+        if rdinfo is not None and aromatic_input and not renumbered:
+            self.rdkit_compare(label, before, k, rdinfo, code, fixed)
+
         # driver model given the real search result
         if full:
             if aromatic_input and has_arom(before):
@@ -492,125 +596,144 @@ class Pipe:
                     touched = list(dict.fromkeys(x for n, m_, _ in form for x in (n, m_)))
                     hs = lst([tup(zraw(n), opt(k._atoms[n].implicit_hydrogens, zraw)) for n in touched])
                     ft = lst([f'T {zraw(n)} {zraw(m_)} {o}' for n, m_, o in form])
-                    cases.append((f'driver_ok g{i} r{i} {ft} {hs} {b(ret)} k{i}', ('driver', label), 'prep'))
+                    cases.append((f'driver_ok g{i} r{i} {ft} {hs} {b(ret)} k{i}', ('driver', label, list(m0._atoms)), 'prep'))
             elif not has_arom(before):
-                cases.append((f'driver_ok g{i} r{i} [] [] false g{i}', ('driver no-op', label), 'prep'))
+                cases.append((f'driver_ok g{i} r{i} [] [] false g{i}', ('driver no-op', label, list(m0._atoms)), 'prep'))
                 if snap(k) != snap(before):
-                    self.bad(f'kekule-noop:{smi}', 'kekule() changed a molecule without aromatic bonds', label, snap(k), snap(before), 'snapshot equality', code)
-
-        # ---- search: Kekule result is clean and stable
-        orders = {o for _, nb in snap(k)[1] for _, o in nb}
-        if not orders <= {1, 2, 3, 8}:
-            self.bad(f'kekule-orders:{smi}', 'Kekule result has a bond order outside 1,2,3 (8 = coordinate)', label, sorted(orders), '1,2,3', 'bond orders', code)
-        ve_before = {n for n in m0.check_valence()} if not aromatic_input else {n for n, a in m0._atoms.items()
-                                                                                if a.implicit_hydrogens is None and not any(int(bd) == 4 for bd in m0._bonds[n].values())}
-        ve = set(k.check_valence()) - ve_before
-        if ve:
-            self.valence_finding(before, k, ve, label, code)
-        k2 = k.copy()
-        r2 = k2.kekule()
-        if r2 or snap(k2) != snap(k):
-            self.bad(f'kekule-twice:{smi}', 'second kekule() changes the molecule / reports a conversion', label, [r2, str(k2)], [False, str(k)],
-                     'snapshot equality', f'm=smiles({smi!r}); m.kekule(); print(m); print(m.kekule(), m)')
+                    self.bad(True, f'kekule-noop:{smi}', 'kekule() changed a molecule without aromatic bonds', label, snap(k), snap(before), 'snapshot equality', code)
 
         # ---- stage 3: thiele() of the Kekule form
         a = k.copy()
         try:
             rt_ = a.thiele()
         except Exception as e:
-            self.bad(f'thiele-crash:{type(e).__name__}:{smi}', f'thiele() raises {type(e).__name__}', label, repr(e), 'an aromatic form', 'exception class',
-                     f'm=smiles({smi!r}); m.kekule(); m.thiele()')
+            self.bad(True, f'thiele-crash:{type(e).__name__}:{smi}', f'thiele() raises {type(e).__name__}', label, repr(e), 'an aromatic form', 'exception class',
+                     code_of('m.kekule(); m.thiele()'))
             cs.add(defs, cases)
             return None
         ck.count(f'thiele:returned-{rt_}')
         defs.append(f'Definition a{i} := {mol_t(a)}.')
-        tcode = f'm=smiles({smi!r}); m.kekule(); h0=[a.implicit_hydrogens for _,a in m.atoms()]; print(m); m.thiele(); print(m, h0, [a.implicit_hydrogens for _,a in m.atoms()])'
-        rel = self.h_route('thiele', k, a, label, tcode)
-        cases.append((f'{rel} k{i} a{i}', ('thiele_rel', 'thiele()', label), ('thiele', label, tcode)))
+        tcode = code_of('m.kekule(); h0=[a.implicit_hydrogens for _,a in m.atoms()]; print(m); m.thiele(); print(m, h0, [a.implicit_hydrogens for _,a in m.atoms()])')
+        s0, s1 = snap(k), snap(a)
+        if [x[:5] for x in s0[0]] != [x[:5] for x in s1[0]] or [(n, [q for q, _ in nb]) for n, nb in s0[1]] != [(n, [q for q, _ in nb]) for n, nb in s1[1]]:
+            self.bad(True, f'thiele-changes-molecule:{smi}', 'thiele() changed atoms, isotopes, charges, radicals or connectivity', label, s1, s0, 'snapshot comparison', tcode)
+        thchg = self.h_changes('thiele', k, a, label, tcode, True)
+        cases.append((f'{"thiele_rel_noh" if thchg else "thiele_rel"} k{i} a{i}', ('thiele_rel', 'thiele()', label, list(m0._atoms)), ('thiele', label, tcode)))
         ck.case(('thiele', tag, label), nontrivial=has_arom(a))
         a2 = a.copy()
         a2.thiele()
         if snap(a2) != snap(a):
-            self.bad(f'thiele-twice:{smi}', 'second thiele() changes the molecule', label, str(a2), str(a), 'snapshot equality',
-                     f'm=smiles({smi!r}); m.kekule(); m.thiele(); print(m); m.thiele(); print(m)')
+            self.bad(True, f'thiele-twice:{smi}', 'second thiele() changes the molecule', label, str(a2), str(a), 'snapshot equality',
+                     code_of('m.kekule(); m.thiele(); print(m); m.thiele(); print(m)'))
         sa = str(a)
+        clean = dom and not ve and not hchg
         # fixpoint of thiele . kekule
         x = a.copy()
+        kx = None
         try:
             x.kekule()
             kx = x.copy()
             x.thiele()
             if snap(x) != snap(a):
-                self.bad(f'thiele-kekule-fixpoint:{smi}', 'thiele(kekule(A)) differs from the aromatic form A = thiele(kekule(m))', label, str(x), sa,
-                         'snapshot equality', f'm=smiles({smi!r}); m.kekule(); m.thiele(); print(m); m.kekule(); m.thiele(); print(m)')
+                self.bad(clean, f'thiele-kekule-fixpoint:{smi}', 'thiele(kekule(A)) differs from the aromatic form A = thiele(kekule(m))', label, str(x), sa,
+                         'snapshot equality', code_of('m.kekule(); m.thiele(); print(m); m.kekule(); m.thiele(); print(m)'))
             # fixpoint of kekule . thiele on the Kekule side
             y = kx.copy()
             y.thiele()
             y.kekule()
             if snap(y) != snap(kx):
-                self.bad(f'kekule-thiele-fixpoint:{smi}', 'kekule(thiele(K)) differs from K = kekule(thiele(kekule(m)))', label, str(y), str(kx),
-                         'snapshot equality', f'm=smiles({smi!r}); m.kekule(); m.thiele(); m.kekule(); print(m); m.thiele(); m.kekule(); print(m)')
+                self.bad(clean, f'kekule-thiele-fixpoint:{smi}', 'kekule(thiele(K)) differs from K = kekule(thiele(kekule(m)))', label, str(y), str(kx),
+                         'snapshot equality', code_of('m.kekule(); m.thiele(); m.kekule(); print(m); m.thiele(); m.kekule(); print(m)'))
         except InvalidAromaticRing as e:
-            self.bad(f'rekekule-raises:{smi}', 'kekule() raises on the aromatic form produced by thiele()', label, repr(e), 'a Kekule form',
-                     'exception', f'm=smiles({smi!r}); m.kekule(); m.thiele(); print(m); m.kekule()')
-        if full and has_arom(a) and not aromatic_input:
-            # the aromatic form made by thiele() goes back through kekule() and the checker
+            self.bad(clean, f'rekekule-raises:{smi}', 'kekule() raises on the aromatic form produced by thiele()', label, repr(e), 'a Kekule form',
+                     'exception', code_of('m.kekule(); m.thiele(); print(m); m.kekule()'))
+        if full and has_arom(a) and kx is not None:
+            # the aromatic form made by thiele() goes back through kekule() and the checker (all hydrogens are known here)
             defs.append(f'Definition j{i} := {mol_t(kx)}.')
-            cases.append((f'kekule_rel a{i} j{i}', ('kekule_rel', 'kekule() of thiele() output', label),
-                          ('kekule', label, f'm=smiles({smi!r}); m.thiele(); print(m); m.kekule(); print(m)')))
+            hx = [n for n, at in a._atoms.items() if at.implicit_hydrogens is not None and kx._atoms[n].implicit_hydrogens != at.implicit_hydrogens]
+            vx = [n for n in kx.check_valence() if a._atoms[n].implicit_hydrogens is not None]
+            if clean and (hx or vx):
+                self.bad(True, f'rekekule-changes-H:{smi}', 'kekule() of the aromatic form produced by thiele() changes hydrogen counts / leaves a valence error', label,
+                         {'H changed': hx, 'valence errors': vx}, 'none', 'hydrogen counts before / after', code_of('m.kekule(); m.thiele(); print(m); m.kekule(); print(m)'))
+            cases.append((f'kekule_rel_x {b(bool(hx))} {b(bool(vx) or bool(ve))} a{i} j{i}', ('kekule_rel', 'kekule() of thiele() output', label, list(m0._atoms)),
+                          ('kekule', label, code_of('m.kekule(); m.thiele(); print(m); m.kekule(); print(m)'))))
 
         # ---- enumerate_kekule(): every form through the checker; all aromatise to one string
-        if full or renumbered:
-            src_m = m0 if aromatic_input else a
-            src_name = src if aromatic_input else f'a{i}'
-            if has_arom(src_m):
-                excluded = unsaturated_4ring(src_m)
-                try:
-                    forms = list(itertools.islice(src_m.copy().enumerate_kekule(), 48))
-                except InvalidAromaticRing as e:
-                    forms = []
-                    self.bad(f'enumerate-raises:{smi}', 'enumerate_kekule() raises although kekule() succeeded', label, repr(e), 'forms', 'exception',
-                             f'm=smiles({smi!r}); print(list(m.enumerate_kekule()))')
-                self.forms_total += len(forms)
-                ck.count(f'forms-per-molecule={min(len(forms), 8)}{"+" if len(forms) >= 8 else ""}')
-                seen = set()
-                strs = set()
-                for f in forms:
-                    sf = snap(f)
-                    if sf in seen:
-                        ck.count('enumerate_kekule: duplicate form')
-                        continue
-                    seen.add(sf)
-                    if len(seen) <= (4 if full else 1):
-                        j = len(seen)
-                        defs.append(f'Definition f{i}_{j} := {mol_t(f)}.')
-                        fcode = f'm=smiles({smi!r}); print([str(f) for f in m.enumerate_kekule()])'
-                        rel = self.h_route('kekule', before if aromatic_input else a, f, label, fcode, quiet=True)
-                        cases.append((f'{rel} {src_name} f{i}_{j}', ('kekule_rel', f'enumerate_kekule() form {j}', label), ('kekule', label, fcode)))
-                    t = f.copy()
-                    t.thiele()
-                    strs.add(str(t))
-                ck.case(('forms', tag, label), nontrivial=len(seen) > 1)
-                if excluded:
-                    self.excluded_4ring += 1
-                    if strs != {sa}:
-                        self.excluded_4ring_inconsistent += 1
-                elif strs and strs != {sa}:
-                    self.bad(f'forms-aromatise-differently:{smi}', 'the enumerated Kekule forms do not all aromatise to the form of the molecule', label,
-                             sorted(strs), sa, 'canonical strings of thiele() of every enumerate_kekule() form',
-                             f'm=smiles({smi!r}); k=m.copy(); k.kekule(); k.thiele(); print(k)\nfor f in m.enumerate_kekule():\n    f.thiele(); print(f)')
+        if (full or renumbered) and has_arom(a):
+            self.forms(i, 'A', a, f'a{i}', a, sa, label, clean, full, defs, cases, tag, code_of, 'm.kekule(); m.thiele(); ', k)
+            if aromatic_input and full:
+                self.forms(i, 'M', m0, src, before, sa, label, clean, full, defs, cases, tag, code_of, '', k)
         cs.add(defs, cases)
-        return sa, k
+        return sa, k, clean
 
-    def h_route(self, which, g0, g1, label, code, quiet=False):
+    def forms(self, i, which, src_m, src_name, rel_src, sa, label, clean, full, defs, cases, tag, code_of, prep_code, k):
+        """which = 'A': forms of the aromatic form thiele(kekule(m)) (every hydrogen count known);
+           which = 'M': forms of the input as given (ring hetero atoms may have unknown hydrogen counts)"""
+        from chython.exceptions import InvalidAromaticRing
+        ck = self.ck
+        excluded = unsaturated_4ring(src_m)
+        fcode = code_of(prep_code + 'print(m)\nfor f in m.enumerate_kekule():\n    t=f.copy(); t.thiele(); print(f, t, [a.implicit_hydrogens for _,a in f.atoms()])')
+        try:
+            forms = list(itertools.islice(src_m.copy().enumerate_kekule(), 48))
+        except InvalidAromaticRing as e:
+            self.bad(clean, f'enumerate-raises:{label}', 'enumerate_kekule() raises although kekule() succeeded', label, repr(e), 'forms', 'exception', fcode)
+            return
+        self.forms_total += len(forms)
+        ck.count(f'forms-per-molecule({which})={min(len(forms), 8)}{"+" if len(forms) >= 8 else ""}')
+        hk = [at.implicit_hydrogens for _, at in k.atoms()]
+        seen = set()
+        strs = set()
+        n_cases = 0
+        for f in forms:
+            sf = snap(f)
+            if sf in seen:
+                ck.count('enumerate_kekule: duplicate form')
+                continue
+            seen.add(sf)
+            hf = [at.implicit_hydrogens for _, at in f.atoms()]
+            other_reading = which == 'M' and hf != hk
+            if other_reading:
+                # a ring atom whose hydrogen count the input leaves unknown is read with another count than kekule() chose
+                ck.count('enumerate_kekule(input): form with other hydrogen counts than kekule()')
+                for (n, at), h1, h2 in zip(src_m.atoms(), hk, hf):
+                    if h1 != h2 and at.implicit_hydrogens is None:
+                        self.bad(clean, f'enumerate-kekule-other-H:{at.atomic_symbol}', 'enumerate_kekule() of an aromatic ring whose hetero atom has no stated hydrogen '
+                                 f'count (bare aromatic {at.atomic_symbol.lower()}) also yields forms with another hydrogen count on it than kekule() sets '
+                                 '(another molecule, another formula)', label, {'form': str(f), 'H': hf}, {'kekule()': str(k), 'H': hk},
+                                 'hydrogen counts of each enumerated form against those of kekule()', fcode, {'atom': n})
+                    elif h1 != h2:
+                        self.bad(clean, f'enumerate-kekule-changes-given-H:{atom_state(at)}:{h1}->{h2}', 'an enumerated Kekule form changes a given hydrogen count', label,
+                                 {'form': str(f), 'H': hf}, {'kekule()': str(k), 'H': hk}, 'hydrogen counts of each enumerated form', fcode, {'atom': n})
+            if n_cases < (4 if full else 1):
+                n_cases += 1
+                j = f'{which}{n_cases}'
+                defs.append(f'Definition f{i}_{j} := {mol_t(f)}.')
+                hx = any(at.implicit_hydrogens is not None and f._atoms[n].implicit_hydrogens != at.implicit_hydrogens for n, at in rel_src._atoms.items())
+                vx = any(rel_src._atoms[n].implicit_hydrogens is not None or any(int(bd) == 4 for bd in rel_src._bonds[n].values()) for n in f.check_valence())
+                cases.append((f'kekule_rel_x {b(hx)} {b(vx)} {src_name} f{i}_{j}', ('kekule_rel', f'enumerate_kekule({which}) form {n_cases}', label, list(src_m._atoms)),
+                              ('kekule', label, fcode)))
+            if not other_reading:
+                t = f.copy()
+                t.thiele()
+                strs.add(str(t))
+        ck.case(('forms', which, tag, label), nontrivial=len(seen) > 1)
+        if excluded:
+            self.excluded_4ring += 1
+            if strs != {sa}:
+                self.excluded_4ring_inconsistent += 1
+        elif strs and strs != {sa}:
+            self.bad(clean, f'forms-aromatise-differently:{label}', 'the enumerated Kekule forms do not all aromatise to the aromatic form of the molecule', label,
+                     sorted(strs), sa, 'canonical strings of thiele() of every enumerate_kekule() form', fcode)
+
+    def h_changes(self, which, g0, g1, label, code, dom):
         """hydrogen counts that were given and changed are reported one by one (stable key per atom state); the rest of the
         relation is still checked by Coq.  A change this comparison misses is caught by the Coq clause kr_h / tr_h."""
         changed = [(n, a0, g1._atoms[n]) for n, a0 in g0._atoms.items()
                    if a0.implicit_hydrogens is not None and g1._atoms[n].implicit_hydrogens != a0.implicit_hydrogens]
-        if not changed:
-            return 'kekule_rel' if which == 'kekule' else 'thiele_rel'
         for n, a0, a1 in changed:
             if which == 'kekule':
+                if a1.implicit_hydrogens is None:
+                    continue        # that is the valence error, reported under its own key
                 key = f'kekule-changes-given-H:{a0.atomic_symbol}{a0.charge:+d}:neighbors={a0.neighbors}:{a0.implicit_hydrogens}->{a1.implicit_hydrogens}'
                 what = (f'kekule() changes a given hydrogen count: ring {a0.atomic_symbol} charge {a0.charge:+d} with {a0.neighbors} neighbours '
                         f'{a0.implicit_hydrogens} -> {a1.implicit_hydrogens} H')
@@ -618,53 +741,42 @@ class Pipe:
                 key = f'thiele-moves-H:{a0.atomic_symbol}{a0.charge:+d}:{a0.implicit_hydrogens}->{a1.implicit_hydrogens}'
                 what = (f'thiele(fix_tautomers=True) moves a hydrogen: ring {a0.atomic_symbol} {a0.implicit_hydrogens} -> {a1.implicit_hydrogens} H '
                         '(per-atom hydrogen counts are not preserved; the total is)')
-            if not quiet:
-                self.ck.count(f'{which}: given hydrogen count changed')
-            self.ck.counterexample(key, what, {'input': label, 'atom': n}, a1.implicit_hydrogens, a0.implicit_hydrogens,
-                                   'per-atom hydrogen counts before / after', replay_py='from chython import smiles\n' + code)
-        if which == 'thiele':
+            self.ck.count(f'{which}: given hydrogen count changed')
+            self.bad(dom, key, what, label, a1.implicit_hydrogens, a0.implicit_hydrogens, 'per-atom hydrogen counts before / after', code, {'atom': n})
+        if which == 'thiele' and changed:
             h0 = sum(a.implicit_hydrogens or 0 for _, a in g0.atoms())
             h1 = sum(a.implicit_hydrogens or 0 for _, a in g1.atoms())
             if h0 != h1:
-                self.ck.counterexample(f'thiele-changes-total-H:{label}', 'thiele() changes the total hydrogen count', {'input': label}, h1, h0,
-                                       'sum of hydrogen counts', replay_py='from chython import smiles\n' + code)
-        return 'kekule_rel_noh' if which == 'kekule' else 'thiele_rel_noh'
+                self.bad(True, f'thiele-changes-total-H:{label}', 'thiele() changes the total hydrogen count', label, h1, h0, 'sum of hydrogen counts', code)
+        return changed
 
-    def valence_finding(self, before, k, ve, label, code):
-        for n in sorted(ve):
+    def rdkit_compare(self, label, before, k, rdinfo, code, fixed):
+        """RDKit kekulization of the same SMILES: per-atom hydrogen count and number of double bonds (inside the domain)"""
+        ck = self.ck
+        hs_rd, dbl_rd = rdinfo
+        if list(k._atoms) != list(range(1, len(hs_rd) + 1)):
+            ck.count('rdkit:not-comparable')
+            return
+        hs_ch = [a.implicit_hydrogens for _, a in k.atoms()]
+        dbl_ch = sum(1 for *_, bd in k.bonds() if int(bd) == 2)
+        self.rdkit_compared += 1
+        ck.case(('rdkit', label), nontrivial=True)
+        diff = [(n, h1, h2) for (n, _), h1, h2 in zip(k.atoms(), hs_ch, hs_rd) if h1 != h2]
+        for n, h1, h2 in diff:
             a = before._atoms[n]
-            key = f'kekule-valence-error:{a.atomic_symbol}{a.charge:+d}:radical={a.is_radical}:neighbors={a.neighbors}'
-            self.ck.counterexample(key, f'kekule() accepts a ring {a.atomic_symbol} (charge {a.charge:+d}, radical {a.is_radical}, {a.neighbors} neighbours) '
-                                   'and leaves it with a valence error', {'input': label, 'atom': n}, 'check_valence() lists the atom', 'no valence error',
-                                   'check_valence() of the Kekule result', replay_py='from chython import smiles\n' + code)
+            if h1 is None:
+                continue      # the valence error, reported under its own key
+            ck.counterexample(f'rdkit-kekule-H:{atom_state(a)}:{h2}->{h1}', f'the Kekule form gives ring {a.atomic_symbol} (charge {a.charge:+d}, {a.neighbors} neighbours) '
+                              f'{h1} H where RDKit (and chython itself on RDKit\'s Kekule spelling) has {h2}', {'input': label, 'atom': n}, {'H': hs_ch, 'double': dbl_ch},
+                              {'H': hs_rd, 'double': dbl_rd}, 'RDKit Kekulize of the same SMILES', replay_py='from chython import smiles\n' + code)
+        if not diff and dbl_rd != dbl_ch and not fixed:
+            ck.counterexample(f'rdkit-kekule-doubles:{label}', 'Kekule form has another number of double bonds than RDKit\'s', {'input': label}, dbl_ch, dbl_rd,
+                              'RDKit Kekulize of the same SMILES', replay_py='from chython import smiles\n' + code)
 
 
-def rdkit_compare(ck, pipe, label, m0, k):
-    """RDKit kekulization of the same SMILES: per-atom hydrogen count and number of double bonds"""
-    from rdkit import Chem
-    rd = Chem.MolFromSmiles(label)
-    if rd is None or rd.GetNumAtoms() != len(m0._atoms):
-        ck.count('rdkit:not-comparable')
-        return
-    try:
-        Chem.Kekulize(rd, clearAromaticFlags=True)
-    except Exception:
-        ck.count('rdkit:not-comparable')
-        return
-    hs_rd = [at.GetTotalNumHs() for at in rd.GetAtoms()]
-    hs_ch = [a.implicit_hydrogens for _, a in k.atoms()]
-    if list(k._atoms) != list(range(1, len(hs_ch) + 1)):
-        ck.count('rdkit:not-comparable')
-        return
-    dbl_rd = sum(1 for bd in rd.GetBonds() if bd.GetBondType() == Chem.BondType.DOUBLE)
-    dbl_ch = sum(1 for *_, bd in k.bonds() if int(bd) == 2)
-    pipe.rdkit_compared += 1
-    ck.case(('rdkit', label), nontrivial=True)
-    if hs_rd != hs_ch or dbl_rd != dbl_ch:
-        # rings chython re-interprets by rule (N-oxides written n(=O), sulfoxides) have different charges, not different hydrogens
-        ck.counterexample(f'rdkit-kekule:{label}', 'Kekule form disagrees with RDKit (hydrogens per atom / number of double bonds)', {'input': label},
-                          {'H': hs_ch, 'double': dbl_ch}, {'H': hs_rd, 'double': dbl_rd}, 'RDKit Kekulize of the same SMILES',
-                          replay_py=f'from chython import smiles\nm=smiles({label!r}); m.kekule(); print(m, [a.implicit_hydrogens for _,a in m.atoms()])')
+def smiles_of(label):
+    from chython import smiles
+    return smiles(label)
 
 
 def rules_need_aromatic_atom(ck):
@@ -683,16 +795,88 @@ def rules_need_aromatic_atom(ck):
         ck.unchecked('a __fix_rings rule can match a molecule without aromatic atoms', 'kekule_noop does not cover __fix_rings any more')
 
 
+# ---------------------------------------------------------------------------------------------------
+# directed search when the model and the implementation disagree
+
+def domain_free_oracles(m, what):
+    """property-level facts that hold for EVERY input kekule() accepts, whatever its chemistry; returns a list of failures"""
+    from chython.exceptions import InvalidAromaticRing
+    out = []
+    k = m.copy()
+    try:
+        k.kekule()
+    except InvalidAromaticRing:
+        return ['raises']
+    except Exception as e:
+        return [f'{what}: kekule() raises {type(e).__name__}: {e}']
+    s0, s1 = snap(m), snap(k)
+    pre = m.copy()
+    pre._Kekule__fix_rings()
+    sp = snap(pre)
+    if [x[:3] for x in s0[0]] != [x[:3] for x in s1[0]] or [x[:5] for x in sp[0]] != [x[:5] for x in s1[0]]:
+        out.append(f'{what}: atoms / charges / radicals changed')
+    if [(n, [q for q, _ in nb]) for n, nb in s0[1]] != [(n, [q for q, _ in nb]) for n, nb in s1[1]]:
+        out.append(f'{what}: connectivity changed')
+    if any(o == 4 for _, nb in s1[1] for _, o in nb):
+        out.append(f'{what}: aromatic bond left in the Kekule result')
+    for (n, nb0), (_, nb1) in zip(sp[1], s1[1]):
+        nd = sum(1 for (_, o0), (_, o1) in zip(nb0, nb1) if o0 == 4 and o1 == 2)
+        if nd > 1:
+            out.append(f'{what}: atom {n} got {nd} double bonds inside the ring system')
+        if any(o0 in (2, 3) and o1 != o0 for (_, o0), (_, o1) in zip(nb0, nb1)):
+            out.append(f'{what}: a double / triple bond of atom {n} was rewritten')
+    k2 = k.copy()
+    if k2.kekule() or snap(k2) != s1:
+        out.append(f'{what}: second kekule() changes the result')
+    return out
+
+
+def directed_search(ck, failed, budget=24):
+    """the disagreeing inputs and random renumberings of them go through the domain-free oracles and the acceptance
+    must not depend on the numbering; returns the number of concrete failures reported"""
+    rng = random.Random(f'{ck.seed}:c05:directed')
+    found = 0
+    for c in failed[:budget]:
+        meta = c[1]
+        label = None if meta[0] == 'grid' else meta[2] if meta[0] in ('kekule_rel', 'thiele_rel') else meta[1]
+        try:
+            if meta[0] == 'grid':
+                m = grid_skeleton(meta[5], meta[6], meta[7], meta[1], meta[2], meta[3], meta[4])
+                label = repr(meta)
+            elif label and not label.startswith('arenes.sdf'):
+                m = smiles_of(label)
+            else:
+                continue
+        except Exception:
+            continue
+        outcomes = []
+        for r in range(6):
+            mr = corpus.renumber(m, rng) if r else m
+            res = domain_free_oracles(mr, label)
+            outcomes.append(res == ['raises'])
+            for msg in res:
+                if msg != 'raises':
+                    found += 1
+                    ck.counterexample(f'directed:{msg[:120]}', msg, {'input': label, 'numbering': list(mr._atoms)}, msg, 'property holds', 'domain-free oracles (directed search)')
+        if len(set(outcomes)) > 1:
+            found += 1
+            ck.counterexample(f'directed:acceptance-depends-on-numbering:{label[:100]}', 'kekule() raises under one numbering and succeeds under another',
+                              {'input': label}, outcomes, 'same outcome', 'random renumberings (directed search)')
+    return found
+
+
 def run(ck):
     from rdkit import RDLogger
     RDLogger.DisableLog('rdApp.*')
     ck.trusted += ['correspondence runner harness/checks/C05.py + harness/coqcases.py + harness/coqmol.py (molecule printer)',
-                   'CachedMethods shim harness/boot.py', 'CPython 3.12.1', 'RDKit 2026.3 (search only)', "chython's canonical SMILES (search: comparison of aromatic forms)"]
+                   'CachedMethods shim harness/boot.py', 'CPython 3.12.1', 'RDKit 2026.3 (search only: domain of the oracles, hydrogen counts)',
+                   "chython's canonical SMILES (search: comparison of aromatic forms)"]
     ck.assumptions += ['kekule_rel / thiele_rel are specifications: the theorems say what every ACCEPTED output satisfies; that the real outputs are accepted is '
                        'checked output by output (vm_compute), not proved for the search _kekule_component / the ring selection of thiele()',
                        '__prepare_rings is hand-modelled (SSSR is an input of the model); tie = exhaustive atom-state grid + every whole input molecule',
                        'the SMARTS rule engine behind __fix_rings / freak_rules is not modelled: the relation is applied to the molecule after __fix_rings',
-                       'calc_implicit (hydrogen recalculation) is an oracle of the driver model; it is modelled by C04']
+                       'calc_implicit (hydrogen recalculation) is an oracle of the driver model; it is modelled by C04',
+                       'hydrogen / valence oracles are claimed inside the domain where RDKit and chython\'s own valence rules accept a Kekule spelling of the input']
     ck.extra['rule'] = ('inputs: curated benzenoids / 5- and 6-membered heterocycles (N O S P B Se Te) / charged / quinoid / fused / 4-ring / malformed aromatic SMILES, '
                         'all c/n six-rings, pyrrole-type X + c/n five-rings, fused templates with random aza substitution, test/arenes.sdf, '
                         'test/heterocycles_charges.smi, a lipophilicity.csv sample; each also under one random renumbering. non-trivial = the molecule has '
@@ -704,20 +888,17 @@ def run(ck):
     pipe = Pipe(ck, cs)
     rng = random.Random(f'{ck.seed}:c05:renumber')
     mols = load_inputs(ck)
-    n_renumber_diff = 0
     for kind, label, m0 in mols:
         res = pipe.run(kind, label, m0)
         mr = corpus.renumber(m0, rng)
         res_r = pipe.run(kind, label, mr, renumbered=True, full=False)
+        dom = domain(str(m0) if kind == 'arenes.sdf' else label)[0]
         if (res is None) != (res_r is None):
-            ck.counterexample(f'renumbering-acceptance:{label}', 'kekule() succeeds under one numbering and raises under another', {'input': label, 'numbering': list(mr._atoms)},
-                              'raises' if res_r is None else 'succeeds', 'same outcome', 'random renumbering')
+            pipe.bad(True, f'renumbering-acceptance:{label}', 'kekule() succeeds under one numbering and raises under another', label,
+                     'raises' if res_r is None else 'succeeds', 'same outcome', 'random renumbering', None, {'numbering': list(mr._atoms)})
         elif res is not None and res[0] != res_r[0]:
-            n_renumber_diff += 1
-            ck.counterexample(f'renumbering-result:{label}', 'aromatic form after kekule()+thiele() depends on the atom numbering', {'input': label, 'numbering': list(mr._atoms)},
-                              res_r[0], res[0], 'canonical string under random renumbering')
-        if res is not None and kind != 'arenes.sdf' and has_arom(m0):
-            rdkit_compare(ck, pipe, label, m0, res[1])
+            pipe.bad(dom and res[2] and res_r[2], f'renumbering-result:{label}', 'aromatic form after kekule()+thiele() depends on the atom numbering', label,
+                     res_r[0], res[0], 'canonical string under random renumbering', None, {'numbering': list(mr._atoms)})
     ok, failed, log, nshards = cs.run()
     prep_failed = [c for c in failed if c[2] == 'prep']
     rel_failed = [c for c in failed if c[2] != 'prep']
@@ -727,6 +908,9 @@ def run(ck):
               'correspondence', str([c[1] for c in rel_failed[:5]]))
     if not ok:
         ck.unchecked('correspondence cases did not evaluate', log[-1500:])
+    if prep_failed or rel_failed:
+        n_found = directed_search(ck, prep_failed + rel_failed)
+        ck.extra['directed_search_failures'] = n_found
     if prep_failed:
         ck.unchecked('correspondence Model.Kekule.prepare_rings / kekule_driver vs chython/algorithms/aromatics/kekule.py', 'model and implementation disagree',
                      [repr(c[1]) for c in prep_failed[:20]])
@@ -735,8 +919,8 @@ def run(ck):
         for c, cl in zip(rel_failed, clauses):
             which, label, code = c[2]
             ck.counterexample(f'{which}-rel-rejects:{label}', f'{c[1][1]} output is not an acceptable {"Kekule" if which == "kekule" else "aromatic"} form of its input '
-                              f'(failed clauses of the Coq checker: {", ".join(cl) or "?"})', {'input': label, 'case': c[0]}, 'rejected', 'accepted',
-                              f'Coq checker {which}_rel (coq/model/Kekule.v)', replay_py=('from chython import smiles\n' + code) if 'arenes.sdf' not in label else None)
+                              f'(failed clauses of the Coq checker: {", ".join(cl) or "?"})', {'input': label, 'numbering': c[1][3], 'case': c[0]}, 'rejected', 'accepted',
+                              f'Coq checker {which}_rel (coq/model/Kekule.v)', replay_py=('from chython import smiles\n' + code) if code else None)
     ck.extra.update({'correspondence_cases': cs.total(), 'coq_shards': nshards, 'molecules': len(mols), 'enumerated_forms': pipe.forms_total,
                      'excluded_unsaturated_4ring_systems': pipe.excluded_4ring,
                      'excluded_unsaturated_4ring_systems_whose_forms_disagree': pipe.excluded_4ring_inconsistent,
@@ -748,12 +932,13 @@ def run(ck):
 def diagnose(rel_failed):
     """which clause of the relation rejects (a second, small Coq run on the failing cases only)"""
     cs = Cases('c05d')
-    spans = []
+    by_defs = {}
     for c in rel_failed:
         rel, g, g2 = split_rel(c[0])
         names = ['kr_atoms', 'kr_bonds', 'kr_classes', 'kr_valence', 'kr_h'] if rel.startswith('kekule') else ['tr_atoms', 'tr_bonds', 'tr_doubles', 'tr_h']
-        cs.add([c[3]], [(f'{nm} {g} {g2}', (id(c), nm), 'diag') for nm in names])
-        spans.append(names)
+        by_defs.setdefault(c[3], []).extend((f'{nm} {g} {g2}', (id(c), nm), 'diag') for nm in names)
+    for d, cases in by_defs.items():
+        cs.add([d], cases)
     ok, failed, log, _ = cs.run()
     bad = {}
     for f in failed:
@@ -762,7 +947,13 @@ def diagnose(rel_failed):
 
 
 def split_rel(expr):
-    rel, rest = expr.split(' ', 1)
+    """'rel [flags] g g2' -> (rel, g, g2); g may be a parenthesised term"""
+    parts = expr.split(' ')
+    rel = parts[0]
+    rest = parts[1:]
+    while rest and rest[0] in ('true', 'false'):
+        rest = rest[1:]
+    rest = ' '.join(rest)
     if rest.startswith('('):
         depth = 0
         for j, ch in enumerate(rest):
